@@ -147,3 +147,7 @@ Proof.
   intros Hn I Ha Hm. destruct (step_src n s a (proj1 (inv_colors n _ I))) as [E _]. rewrite E.
   exact (step_preserves_Inv_legal n (conv s) a Hn I Ha Hm).
 Qed.
+
+(* C03 on the translated step: never FIRST, MID with discount 1 or LAST with discount 0 (no truncation) -- any state, any action *)
+Lemma src_step_protocol n s a : zlen (s_colors s) = n -> step_ok 1 false (snd (step n s a)) = true.
+Proof. intros L. destruct (step_src n s a L) as [_ E]. rewrite E. apply C03_step_protocol. Qed.
